@@ -119,6 +119,15 @@ Lemma exn_sched e n p : exn (sched e n p) = exn e. Proof. reflexivity. Qed.
 Lemma xext_fold {B} (g : eng -> B -> eng) l e : (forall e b, xext e (g e b)) -> xext e (fold_left g l e).
 Proof. intros H. revert e; induction l as [|b l IH]; intros e; simpl; [apply xext_refl|]. eapply xext_trans; [apply H | apply IH]. Qed.
 Lemma xext_sched e n p : p < ntasks e -> xext e (sched e n p). Proof. intros H. split; [now apply ext_sched | reflexivity]. Qed.
+Lemma xext_sched_next e n p : p < ntasks e -> is_completed (st e p) = true -> xext e (sched_next e n p).
+Proof. intros H Hc. split; [now apply ext_sched_next | reflexivity]. Qed.
+Lemma st_complete_if site e i : i < ntasks e -> is_completed (st (if negb (is_completed (st e i)) then set_state site e i SCompleted else e) i) = true.
+Proof.
+  intros H. destruct (is_completed (st e i)) eqn:E; simpl; [exact E|].
+  destruct (st_set_state_same site e i SCompleted) as [-> | [H' _]]; [reflexivity | unfold ntasks in H; lia].
+Qed.
+Lemma skip_or_done s b : is s SSkipped || (b && is s SCompleted) = true -> is_completed s = true.
+Proof. destruct s; simpl; try reflexivity; destruct b; simpl; discriminate. Qed.
 Lemma exn_sched_nodes e l i : exn (sched_nodes e l i) = exn e.
 Proof. unfold sched_nodes. revert e; induction l as [|c l IH]; intros e; simpl; auto. now rewrite IH. Qed.
 Lemma xext_sched_nodes e l i : i < ntasks e -> xext e (sched_nodes e l i).
@@ -501,7 +510,7 @@ Proof.
          if forallb (fun j => is_completed (st e' j)) (children e' i) then
            let e'' := if negb (is_completed (st e' i)) then set_state 12 e' i SCompleted else e' in
            match n_next (tnode e'' i) with
-           | Some nx => (true, sched e'' nx i)
+           | Some nx => (true, sched_next e'' nx i)
            | None => (flag, e'')
            end
          else (flag, e')))).
@@ -534,7 +543,7 @@ Proof.
         assert (GC : G e (if negb (is_completed (st e' i)) then set_state 12 e' i SCompleted else e')).
         { eapply G_trans; [exact HF|]. apply G_complete. apply HF. }
         destruct (n_next _); simpl; [|exact GC].
-        eapply G_trans; [exact GC|]. apply G_xext; [apply GC|]. apply xext_sched. destruct GC; lia. }
+        eapply G_trans; [exact GC|]. apply G_xext; [apply GC|]. apply xext_sched_next; [destruct GC; lia | apply st_complete_if; destruct HF; lia]. }
       destruct (kind e i) eqn:K.
       - simpl. now apply G_refl.
       - destruct (is (st e i) SRunning) eqn:ER; [|now apply G_refl].
@@ -544,12 +553,12 @@ Proof.
         + apply G_xext; auto. now apply (xext_sched_nodes e (c :: cs) i).
       - (* step *)
         cbv zeta. destruct (is (st e i) SRunning); [exact Hloop|].
-        destruct (is (st e i) SSkipped || (nkind_beq KStep KAct && is (st e i) SCompleted)); [|now apply G_refl].
-        destruct (n_next (tnode e i)); simpl; [|now apply G_refl]. apply G_xext; auto. now apply xext_sched.
+        destruct (is (st e i) SSkipped || (nkind_beq KStep KAct && is (st e i) SCompleted)) eqn:Esk; [|now apply G_refl].
+        destruct (n_next (tnode e i)); simpl; [|now apply G_refl]. apply G_xext; auto. apply xext_sched_next; [exact Hi | eapply skip_or_done; exact Esk].
       - (* act *)
         cbv zeta. destruct (is (st e i) SRunning); [exact Hloop|].
-        destruct (is (st e i) SSkipped || (nkind_beq KAct KAct && is (st e i) SCompleted)); [|now apply G_refl].
-        destruct (n_next (tnode e i)); simpl; [|now apply G_refl]. apply G_xext; auto. now apply xext_sched. }
+        destruct (is (st e i) SSkipped || (nkind_beq KAct KAct && is (st e i) SCompleted)) eqn:Esk; [|now apply G_refl].
+        destruct (n_next (tnode e i)); simpl; [|now apply G_refl]. apply G_xext; auto. apply xext_sched_next; [exact Hi | eapply skip_or_done; exact Esk]. }
     simpl in HX.
     destruct (is_completed (st e1 i)); [|exact HX].
     assert (GU : G e (update_data e1 i cv)).
@@ -604,10 +613,10 @@ Proof.
             assert (GC : G e (if negb (is_completed (st e'' i)) then set_state 16 e'' i SCompleted else e'')).
             { eapply G_trans; [exact HS1|]. apply G_complete. apply HS1. }
             destruct (n_next _); simpl; [|exact GC].
-            eapply G_trans; [exact GC|]. apply G_xext; [apply GC|]. apply xext_sched. destruct GC; lia.
-        + destruct (is (st e0 i) SSkipped); simpl; [|exact G0].
+            eapply G_trans; [exact GC|]. apply G_xext; [apply GC|]. apply xext_sched_next; [destruct GC; lia | apply st_complete_if; destruct HS1; lia].
+        + destruct (is (st e0 i) SSkipped) eqn:Esk; simpl; [|exact G0].
           destruct (n_next (tnode e0 i)); simpl; [|exact G0].
-          eapply G_trans; [exact G0|]. apply G_xext; [apply G0|]. now apply xext_sched.
+          eapply G_trans; [exact G0|]. apply G_xext; [apply G0|]. apply xext_sched_next; [exact R0 | apply is_eq in Esk; now rewrite Esk].
       - (* act *)
         destruct (is (st e0 i) SRunning) eqn:ER; simpl; [|exact G0]. apply is_eq in ER.
         destruct (act_scan e0 (children e0 i) 0); simpl; [exact G0| |].
@@ -616,7 +625,7 @@ Proof.
           assert (GC : G e (if negb (is_completed (st e0 i)) then set_state 18 e0 i SCompleted else e0)).
           { eapply G_trans; [exact G0|]. apply G_complete. apply G0. }
           destruct (n_next _); simpl; [|exact GC].
-          eapply G_trans; [exact GC|]. apply G_xext; [apply GC|]. apply xext_sched. destruct GC; lia. }
+          eapply G_trans; [exact GC|]. apply G_xext; [apply GC|]. apply xext_sched_next; [destruct GC; lia | apply st_complete_if; exact R0]. }
     simpl in HX.
     assert (GE : G e (if is_completed (st e1 i) && negb (is (st e0 i) (st e1 i)) then emit f e1 i else e1)).
     { destruct (_ && _); [|exact HX]. eapply G_trans; [exact HX|]. apply IHe; [apply HX | destruct HX; lia]. }
